@@ -30,6 +30,14 @@ ASSUMPTIONS = ['integers in attributes stay within int64', 'code points that UTF
 REQUIRE = {'messages_compared': 800, 'fields_compared': 20000, 'collector_snapshots': 300, 'surrogate_cases': 40,
            'sequence_attribute_cases': 40, 'auth_sessions': 30, 'requests_with_metadata_checked': 100,
            'hostile_provider_sessions': 5}
+import enum  # noqa: E402
+
+
+class HttpStatus(enum.IntEnum):
+    OK = 200
+    NOT_FOUND = 404
+
+
 SURR = re.compile('[\ud800-\udfff]')
 
 
@@ -289,7 +297,7 @@ def synth(r):
     for _ in range(r.randrange(0, 5)):
         key = r.pick(['context', 'tracepoint', 'thread_name', 'k1', 'ünï'])
         val = r.pick([gen_text(r, False), r.randrange(-2 ** 62, 2 ** 62), True, 2.5, b'raw-bytes', ['x', 'y'], (1, 2),
-                      [0.5, 1.5], [True]])
+                      [0.5, 1.5], [True], HttpStatus.NOT_FOUND, HttpStatus.OK, False, 0])
         if isinstance(val, (list, tuple)):
             flags.add('sequence')
         snap.attributes[key] = val
@@ -357,7 +365,8 @@ def _custom_provider_class():
 
         def provide(self):
             type(self).calls += 1
-            return [('x-api-key', 'key-%s' % self._config.MY_TENANT), ('x-tenant', str(self._config.MY_TENANT))]
+            return [('x-api-key', 'key-%s' % self._config.MY_TENANT), ('x-tenant', str(self._config.MY_TENANT)),
+                    ('x-scope', 'team-a'), ('x-scope', 'team-b')]
 
     return VfProvider
 
@@ -382,7 +391,8 @@ def _flaky_provider_class():
                 PROVIDER_PLAN['gate'].wait(3)
             if n <= PROVIDER_PLAN['fail_first']:
                 raise RuntimeError('token endpoint unavailable (call %d)' % n)
-            return [('x-api-key', 'key-%s' % self._config.MY_TENANT), ('x-tenant', str(self._config.MY_TENANT))]
+            return [('x-api-key', 'key-%s' % self._config.MY_TENANT), ('x-tenant', str(self._config.MY_TENANT)),
+                    ('x-scope', 'team-a'), ('x-scope', 'team-b')]
 
     return VfFlakyProvider
 
@@ -408,7 +418,8 @@ def expected_metadata(mode, cfg):
         return [('authorization', 'Basic%20' + token)]
     if mode == 'basic_nopass':
         return []
-    return [('x-api-key', 'key-%s' % cfg['MY_TENANT']), ('x-tenant', str(cfg['MY_TENANT']))]
+    return [('x-api-key', 'key-%s' % cfg['MY_TENANT']), ('x-tenant', str(cfg['MY_TENANT'])), ('x-scope', 'team-a'),
+            ('x-scope', 'team-b')]
 
 
 def case_auth(seed, out, spec):
@@ -512,7 +523,7 @@ def case_auth_hostile(seed, out, spec, r, mode):
     grpc.channel.on_call = lambda method, request: PollResponse(ts_nanos=1, current_hash='',
                                                                 response_type=ResponseType.NO_CHANGE)
     poll = LongPoll(config, grpc)
-    want = [('x-api-key', 'key-%s' % tenant), ('x-tenant', str(tenant))]
+    want = [('x-api-key', 'key-%s' % tenant), ('x-tenant', str(tenant)), ('x-scope', 'team-a'), ('x-scope', 'team-b')]
     replay = replay_spec(spec, seed)
     raised = 0
     if mode == 'flaky':
